@@ -8,7 +8,7 @@ import z3
 
 from .sx_base import GenError
 from .theory import Bool, Int
-from .values import (F, FAll, FAnd, FEx, FImp, FOr, FT, Sym, VFunc, VList, VObj, VOpt, VRefMap, VSet)
+from .values import (F, FAll, FAnd, FEx, FImp, FOr, FT, Sym, VFunc, VList, VObj, VOpt, VOptRefMap, VRefMap, VSet)
 
 _parse_cache: dict[str, ast.AST] = {}
 
@@ -55,7 +55,7 @@ class SpecMixin:
         memo = {}
 
         def cp(v):
-            if isinstance(v, (VList, VObj, VSet, VRefMap)):
+            if isinstance(v, (VList, VObj, VSet, VRefMap, VOptRefMap)):
                 k = id(v)
                 if k not in memo:
                     c = v.copy()
